@@ -1165,6 +1165,9 @@ def const_eval(e):
     if e[0] == "un" and e[1] == "Not":
         a = const_eval(e[2])
         return None if a is None else ~a
+    if e[0] in ("field", "variant") and len(e) > 1 and isinstance(e[1], tuple):
+        # `usize::try_from(CONST).unwrap()`: the conversion calls are value-transparent for the expression engine, what is left is the payload of the constant
+        return const_eval(e[1])
     return None
 
 
